@@ -27,6 +27,7 @@ def main():
     R, V = "/tmp/rseed" + slot, "/tmp/vseed" + slot
     if not os.path.exists(R):
         sh(f"git -C /repo worktree add --detach {R} HEAD", check=True)
+    sh(f"git -C {R} reset -q --hard")   # a failed `apply -3` of an earlier run may have left conflict entries in the index
     sh(f"git -C {R} checkout -q --detach $(git -C /repo rev-parse HEAD) && git -C {R} checkout -- . && git -C {R} clean -fdq -e target", check=True)
     if not os.path.exists(V):
         sh(f"git -C /verif worktree add --detach {V} HEAD", check=True)
@@ -36,6 +37,7 @@ def main():
     if rc != 0:
         rc, out = sh(f"git -C {R} apply -3 {patch}")   # context moved by a later fix: commit in /repo
         if rc != 0:
+            sh(f"git -C {R} reset -q --hard")
             print(out); sys.exit("patch does not apply")
         sh(f"git -C {R} reset -q")
     results = {}
